@@ -313,3 +313,5 @@ def witness(ctx):
                 if Kof(p, q, N) < 1:
                     continue
                 ctx.check("fine_grid", dict(term=term, D=D, N=N, frac=frac, seed=ctx.seed + N))
+                if term in ("general_nonlinear", "conv_mc_cons", "gradient_norm") and Kof(1, 2, N) >= 1 and (deep or N % 4 == 0):
+                    ctx.check("fine_grid", dict(term=term, D=D, N=N, frac="1/2", seed=ctx.seed + N))
